@@ -133,6 +133,8 @@ Definition pv_truthy (v : pv) : res bool :=
   end.
 
 Definition pv_is_none (v : pv) : bool := match v with PV VNull => true | _ => false end.
+(* identity with the singleton True / False (bld-env, additive: these cases were Stuck) *)
+Definition pv_is_bool (y : bool) (v : pv) : bool := match v with PV (VBool x) => Bool.eqb x y | _ => false end.
 
 (* Python == on the modelled values (scalars: Base/PyValue's val_eq between values of one kind) *)
 Fixpoint pv_eqb (a b : pv) {struct a} : bool :=
@@ -155,8 +157,10 @@ Fixpoint pv_eqb (a b : pv) {struct a} : bool :=
 (* comparisons between scalars are Base/PyValue's (the executor model's); `is` is only modelled against None *)
 Definition compare1 (op : cmpop) (a b : pv) : res bool :=
   match op with
-  | CIs => if pv_is_none b then Ok (pv_is_none a) else if pv_is_none a then Ok false else Stuck
-  | CIsNot => if pv_is_none b then Ok (negb (pv_is_none a)) else if pv_is_none a then Ok true else Stuck
+  | CIs => if pv_is_none b then Ok (pv_is_none a) else if pv_is_none a then Ok false
+           else match b with PV (VBool y) => Ok (pv_is_bool y a) | _ => Stuck end    (* x is True / x is False *)
+  | CIsNot => if pv_is_none b then Ok (negb (pv_is_none a)) else if pv_is_none a then Ok true
+              else match b with PV (VBool y) => Ok (negb (pv_is_bool y a)) | _ => Stuck end
   | CIn => match b with PList l | PTuple l => Ok (existsb (pv_eqb a) l) | _ => Stuck end
   | CNotIn => match b with PList l | PTuple l => Ok (negb (existsb (pv_eqb a) l)) | _ => Stuck end
   | _ =>
@@ -370,6 +374,7 @@ Fixpoint eval (s : st) (e : expr) {struct e} : res (st * pv) :=
       match v with
       | PList l => Ok (s3, PList (slice_list l l' h'))
       | PTuple l => Ok (s3, PTuple (slice_list l l' h'))
+      | PV (VStr x) => Ok (s3, PV (VStr (slice_list x l' h')))     (* str[lo:hi] (bld-env, additive: was Stuck) *)
       | _ => Stuck
       end
   | XListComp elt x it cond =>
@@ -519,6 +524,17 @@ Definition call_method (f : fdef) (flds : env) (args : list pv) : res (env * pv)
         (* a generator function returns the items it yielded; the value of a return statement is lost *)
         Ok (fields s', match lookup yield_var (locals s') with Some y => y | None => PList [] end)
       else match o with Next s => Ok (fields s, PNone) | Ret s v => Ok (fields s, v) end
+  end.
+
+(* call a translated PLAIN function (no receiver, no fields): the returned value (bld-env, additive) *)
+Definition call_function (f : fdef) (args : list pv) : res pv :=
+  match bind_params (f_params f) args with
+  | None => Exc TypeError
+  | Some loc =>
+      do o <- exec_block {| locals := loc; fields := [] |} (f_body f);
+      let s' := match o with Next s => s | Ret s _ => s end in
+      if f_gen f then Ok (match lookup yield_var (locals s') with Some y => y | None => PList [] end)
+      else match o with Next _ => Ok PNone | Ret _ v => Ok v end
   end.
 
 End Interp.
